@@ -268,6 +268,34 @@ func TestC20(t *testing.T) {
 					return c
 				})
 			}
+			// column-major operands and destinations, alone and mixed with row-major ones
+			if eng != "" {
+				for _, mode := range []string{"safe", "unsafe", "reuse", "incr"} {
+					eng, op, mode := eng, op, mode
+					c20cell(t, "EW", fmt.Sprintf("arith-cm/%s/%s/eng=%s", op, mode, eng), nCases(15, 400), func(rt *rapid.T) Case {
+						d := engDT(eng)
+						form := rapid.SampledFrom([]string{"TT", "TT", "TS", "ST"}).Draw(rt, "form")
+						c := genArithCase(rt, "C20", op, d, form, rapid.SampledFrom([]string{"pkg", "method"}).Draw(rt, "via"), "safe", c06LayoutKinds)
+						c = withMode(rt, c, mode, d)
+						sameShapeDst(c)
+						n := 1
+						if c.B != nil {
+							n++
+						}
+						ls := c16Layouts(rt, n)
+						relayout(rt, &c.A, ls[0], "ra")
+						if c.B != nil {
+							relayout(rt, c.B, ls[1], "rb")
+						}
+						if c.Dst != nil {
+							relayout(rt, c.Dst, rapid.SampledFrom([]string{"cmraw", "contig"}).Draw(rt, "dk"), "rd")
+						}
+						avoidF39(c)
+						c.Engine = eng
+						return avoidC16EW(c)
+					})
+				}
+			}
 			// every value awkward at once (extremes, a huge and a tiny magnitude next to each other): the order
 			// and the precision in which an increment is accumulated show in the result
 			eng, op := eng, op
